@@ -26,7 +26,7 @@ def admissible(name, n, N, order, cplx):
     if name in ('Periodogram', 'MultiTapering'):
         return n >= N
     if name == 'pcorrelogram':
-        return n >= 3 and (cplx or n % 2 == 0)
+        return n >= 3
     if name == 'pminvar':
         return n >= 4
     if name in ('pmusic', 'pev'):
